@@ -54,9 +54,26 @@ type TLSConfig struct {
 	InsecureSkipVerify bool
 
 	// tlsConfig is the internal Go TLS configuration
-	tlsConfig   *tls.Config
-	mu          sync.RWMutex
-	currentCert atomic.Pointer[tls.Certificate] // atomically updated for concurrent reads
+	tlsConfig *tls.Config
+	mu        sync.RWMutex
+	certs     atomic.Pointer[certHolder] // shared by a TLSConfig and all its clones, see holder()
+}
+
+// certHolder is the cell the server certificate lives in. It is shared by a
+// TLSConfig and every Clone made from it, so that ReloadCertificates on the
+// settings returned by GetExportOptions (a clone) is seen by the GetCertificate
+// callback of the running listener (built from the original).
+type certHolder struct {
+	cert atomic.Pointer[tls.Certificate] // atomically updated for concurrent reads
+}
+
+// holder returns the certificate cell of tc, creating it on first use.
+func (tc *TLSConfig) holder() *certHolder {
+	if h := tc.certs.Load(); h != nil {
+		return h
+	}
+	tc.certs.CompareAndSwap(nil, &certHolder{})
+	return tc.certs.Load()
 }
 
 // DefaultTLSConfig returns a TLS configuration with secure defaults
@@ -154,12 +171,13 @@ func (tc *TLSConfig) BuildConfig() (*tls.Config, error) {
 	}
 
 	// Store cert atomically for concurrent-safe access
-	tc.currentCert.Store(&cert)
+	certs := tc.holder()
+	certs.cert.Store(&cert)
 
 	// Create base TLS config using GetCertificate callback for hot-reload support
 	config := &tls.Config{
 		GetCertificate: func(*tls.ClientHelloInfo) (*tls.Certificate, error) {
-			return tc.currentCert.Load(), nil
+			return certs.cert.Load(), nil
 		},
 		MinVersion:               tc.MinVersion,
 		MaxVersion:               tc.MaxVersion,
@@ -225,7 +243,7 @@ func (tc *TLSConfig) ReloadCertificates() error {
 
 	// Atomically update the certificate - the GetCertificate callback
 	// will pick up the new cert on the next TLS handshake
-	tc.currentCert.Store(&cert)
+	tc.holder().cert.Store(&cert)
 
 	return nil
 }
@@ -323,6 +341,10 @@ func (tc *TLSConfig) Clone() *TLSConfig {
 		clone.CipherSuites = make([]uint16, len(tc.CipherSuites))
 		copy(clone.CipherSuites, tc.CipherSuites)
 	}
+
+	// The clone shares the certificate cell: reloading through either one is
+	// seen by every tls.Config built from the other.
+	clone.certs.Store(tc.holder())
 
 	// Note: tlsConfig is not copied - the clone will rebuild it when needed
 	return clone
